@@ -88,7 +88,7 @@ Cfg0 == [lo |-> NoB, hi |-> NoB, il |-> TRUE, ih |-> TRUE, an |-> FALSE, it |-> 
 BOOL == {TRUE, FALSE}
 Norm(CS) == {c \in CS : (c.lo = NoB => c.il) /\ (c.hi = NoB => c.ih)}
 Bounded == Norm({[Cfg0 EXCEPT !.lo = lo, !.hi = hi, !.il = il, !.ih = ih, !.an = an] :
-                   lo \in {NoB, 0, 2}, hi \in {NoB, 8}, il \in BOOL, ih \in BOOL, an \in BOOL})
+                   lo \in {NoB, 0, 1, 2}, hi \in {NoB, 8}, il \in BOOL, ih \in BOOL, an \in BOOL})      \* (lo = 1: the bound 0.5)
 AN == {[Cfg0 EXCEPT !.an = an] : an \in BOOL}
 Cfgs(t) ==
   CASE t \in {"Integer", "Number"} -> Bounded \cup {[b EXCEPT !.soft = TRUE] : b \in Bounded}
